@@ -151,6 +151,9 @@ pub fn probe_auth(sim: &mut Sim) {
         reqs.push((json!({"cancel_ask": {"id": id}}), vec![]));
         reqs.push((json!({"expire_ask": {"id": id}}), vec![]));
         reqs.push((json!({"reject_ask": {"id": id}}), vec![]));
+        if cfg.increment > 0 && book.asks[&id].size > cfg.increment {
+            reqs.push((json!({"reject_ask": {"id": id, "size": cfg.increment.to_string()}}), vec![]));
+        }
         // approve a pending ask if there is one
         if let Some((pid, pa)) = book.asks.iter().find(|(_, a)| a.class == AskClass::Pending) {
             let restricted = sim.chain.querier.markers.get(&cfg.base_denom).copied().unwrap_or(0) == 2;
@@ -166,6 +169,9 @@ pub fn probe_auth(sim: &mut Sim) {
         reqs.push((json!({"cancel_bid": {"id": id}}), vec![]));
         reqs.push((json!({"expire_bid": {"id": id}}), vec![]));
         reqs.push((json!({"reject_bid": {"id": id}}), vec![]));
+        if cfg.increment > 0 && book.bids[&id].unfilled() > cfg.increment {
+            reqs.push((json!({"reject_bid": {"id": id, "size": cfg.increment.to_string()}}), vec![]));
+        }
     }
     // a crossing pair, if any
     'outer: for (aid, a) in &book.asks {
@@ -194,6 +200,18 @@ pub fn probe_auth(sim: &mut Sim) {
         }
     }
     reqs.push((json!({"modify_contract": {}}), vec![]));
+    {
+        // a change that is admissible for an executor in every book state: approvers kept (plus
+        // one), executors replaced
+        let mut ap = cfg.approvers.clone();
+        let newcomer = rng.pick(&sim.spec.accounts).clone();
+        if !ap.contains(&newcomer) && crate::seams::addr_ok(&newcomer) {
+            ap.push(newcomer.clone());
+        }
+        if !ap.is_empty() && crate::seams::addr_ok(&newcomer) {
+            reqs.push((json!({"modify_contract": {"approvers": ap, "executors": [newcomer]}}), vec![]));
+        }
+    }
     let accounts = sim.spec.accounts.clone();
     // the same requests under another spelling of the order's id: whatever such a request does,
     // it must not let somebody act on the order who could not under its real id
